@@ -90,7 +90,15 @@ func importComment(s Spec) string {
 	if c == nil {
 		return ""
 	}
-	return c.Text()
+	// go/ast's CommentGroup.Text indexes the second byte of every comment;
+	// a '#' comment may consist of the single byte '#'.
+	list := make([]*Comment, 0, len(c.List))
+	for _, cm := range c.List {
+		if len(cm.Text) >= 2 {
+			list = append(list, cm)
+		}
+	}
+	return (&CommentGroup{List: list}).Text()
 }
 
 // collapse indicates whether prev may be removed, leaving only next.
